@@ -570,6 +570,106 @@ Section MGAProofs.
     destruct (pow_lsb_spec p (mga_mul k M) V can (fun a Ha => V_can a Ha) mga_mul_ok 64 (g_r M) b e Cr Hb He) as [C1 V1].
     split; [exact C1|]. rewrite V1, Vr. rewrite Z.mul_1_l. reflexivity.
   Qed.
+
+  (* ---- exponentiation by a ruint<K> (rmgexp.h): 16-entry table, 4-bit windows from the top, four squarings between windows *)
+  Lemma hd_nth0 (t : list Z) : hd 0 t = nth 0 t 0.
+  Proof. destruct t; reflexivity. Qed.
+
+  Lemma mga_table_ok b : can b -> forall n i, (i <= n)%nat ->
+    can (nth (n - i) (mga_table k M n b) 0) /\ V (nth (n - i) (mga_table k M n b) 0) = (V b ^ Z.of_nat i) mod p.
+  Proof.
+    intros Hb. induction n as [|n IH]; intros i Hi.
+    - assert (i = 0%nat) by lia. subst i. cbn [mga_table Nat.sub nth]. destruct mga_r_ok as [Cr Vr]. split; [exact Cr|].
+      rewrite Vr. change (Z.of_nat 0) with 0. rewrite Z.pow_0_r. symmetry. apply Z.mod_1_l. lia.
+    - cbn [mga_table]. cbv zeta. destruct (Nat.eq_dec i (S n)) as [->|Ne].
+      + rewrite Nat.sub_diag. cbn [nth]. rewrite hd_nth0. destruct (IH n (le_n n)) as [C1 V1]. rewrite Nat.sub_diag in C1, V1.
+        destruct (mga_mul_ok _ b C1 Hb) as [C2 V2]. split; [exact C2|]. rewrite V2, V1.
+        rewrite Nat2Z.inj_succ. rewrite Z.pow_succ_r by lia. rewrite Z.mul_mod_idemp_l by lia. f_equal. ring.
+      + replace (S n - i)%nat with (S (n - i)) by lia. cbn [nth]. apply IH. lia.
+  Qed.
+
+  Lemma mga_g_ok b w : can b -> 0 <= w < 16 ->
+    can (mga_g (mga_table k M 15 b) w) /\ V (mga_g (mga_table k M 15 b) w) = (V b ^ w) mod p.
+  Proof.
+    intros Hb Hw. unfold mga_g. destruct (mga_table_ok b Hb 15 (Z.to_nat w) ltac:(lia)) as [C1 V1].
+    rewrite Z2Nat.id in V1 by lia. split; assumption.
+  Qed.
+
+  Lemma digit_eq m c : Z.land (Z.shiftr c (4 * Z.of_nat m)) 15 = (c / 16 ^ Z.of_nat m) mod 16.
+  Proof.
+    rewrite Z.shiftr_div_pow2 by lia. rewrite Z.pow_mul_r by lia. change (2 ^ 4) with 16.
+    change 15 with (Z.ones 4). rewrite Z.land_ones by lia. reflexivity.
+  Qed.
+
+  Lemma sq4_ok a : can a ->
+    can (mga_square k M (mga_square k M (mga_square k M (mga_square k M a)))) /\
+    eqm p (V (mga_square k M (mga_square k M (mga_square k M (mga_square k M a))))) (V a ^ 16).
+  Proof.
+    intros Ha. destruct (mga_square_ok a Ha) as [C1 V1]. destruct (mga_square_ok _ C1) as [C2 V2].
+    destruct (mga_square_ok _ C2) as [C3 V3]. destruct (mga_square_ok _ C3) as [C4 V4]. split; [exact C4|].
+    assert (E1 : eqm p (V (mga_square k M a)) (V a ^ 2)).
+    { rewrite V1, mod_eqm. replace (V a * V a) with (V a ^ 2) by ring. reflexivity. }
+    assert (E2 : eqm p (V (mga_square k M (mga_square k M a))) (V a ^ 4)).
+    { rewrite V2, mod_eqm, E1. replace (V a ^ 2 * V a ^ 2) with (V a ^ 4) by ring. reflexivity. }
+    assert (E3 : eqm p (V (mga_square k M (mga_square k M (mga_square k M a)))) (V a ^ 8)).
+    { rewrite V3, mod_eqm, E2. replace (V a ^ 4 * V a ^ 4) with (V a ^ 8) by ring. reflexivity. }
+    rewrite V4, mod_eqm, E3. replace (V a ^ 8 * V a ^ 8) with (V a ^ 16) by ring. reflexivity.
+  Qed.
+
+  Lemma win_algebra y x c m w : 0 <= c -> w = (c / 16 ^ Z.of_nat (S m)) mod 16 ->
+    ((y * x ^ w) ^ 16) ^ (16 ^ Z.of_nat m) * x ^ (c mod 16 ^ Z.of_nat (S m)) =
+    y ^ (16 ^ Z.of_nat (S m)) * x ^ (c mod 16 ^ Z.of_nat (S (S m))).
+  Proof.
+    intros Hc Hw. set (E := 16 ^ Z.of_nat (S m)).
+    assert (HE : 0 < E) by (apply Z.pow_pos_nonneg; lia).
+    assert (Hm : 0 <= 16 ^ Z.of_nat m) by (apply Z.pow_nonneg; lia).
+    assert (EE : E = 16 * 16 ^ Z.of_nat m) by (unfold E; rewrite Nat2Z.inj_succ; apply Z.pow_succ_r; lia).
+    assert (E2 : 16 ^ Z.of_nat (S (S m)) = E * 16) by (rewrite (Nat2Z.inj_succ (S m)); rewrite Z.pow_succ_r by lia; fold E; ring).
+    rewrite E2. rewrite Z.rem_mul_r by lia. fold E in Hw. rewrite <- Hw.
+    assert (Hw0 : 0 <= w < 16) by (subst w; apply Z.mod_pos_bound; lia).
+    pose proof (Z.mod_pos_bound c E HE) as Hr.
+    rewrite <- (Z.pow_mul_r (y * x ^ w) 16 (16 ^ Z.of_nat m)) by lia. rewrite <- EE.
+    rewrite Z.pow_mul_l. rewrite <- (Z.pow_mul_r x w E) by lia.
+    rewrite (Z.pow_add_r x (c mod E) (E * w)) by nia.
+    replace (w * E) with (E * w) by ring. ring.
+  Qed.
+
+  Lemma mga_win_loop_ok b c : can b -> 0 <= c -> forall m a, can a ->
+    can (mga_win_loop k M (mga_table k M 15 b) (S m) a c) /\
+    eqm p (V (mga_win_loop k M (mga_table k M 15 b) (S m) a c))
+          (V a ^ (16 ^ Z.of_nat m) * V b ^ (c mod 16 ^ Z.of_nat (S m))).
+  Proof.
+    intros Hb Hc. induction m as [|m IH]; intros a Ha.
+    - cbn [mga_win_loop]. cbv zeta. rewrite digit_eq.
+      change (Z.of_nat 0) with 0. change (Z.of_nat 1) with 1. rewrite Z.pow_0_r, Z.div_1_r. rewrite !Z.pow_1_r.
+      destruct (mga_g_ok b (c mod 16) Hb ltac:(apply Z.mod_pos_bound; lia)) as [Cg Vg].
+      destruct (mga_mul_ok a _ Ha Cg) as [C1 V1]. split; [exact C1|]. rewrite V1, Vg. rewrite mod_eqm.
+      rewrite (mod_eqm p (V b ^ (c mod 16))). reflexivity.
+    - cbn [mga_win_loop]. cbv zeta. rewrite digit_eq.
+      assert (Hw : 0 <= (c / 16 ^ Z.of_nat (S m)) mod 16 < 16) by (apply Z.mod_pos_bound; lia).
+      set (w := (c / 16 ^ Z.of_nat (S m)) mod 16) in *.
+      destruct (mga_g_ok b w Hb Hw) as [Cg Vg]. destruct (mga_mul_ok a _ Ha Cg) as [C1 V1].
+      destruct (sq4_ok _ C1) as [C2 V2]. destruct (IH _ C2) as [C3 V3]. split; [exact C3|].
+      rewrite V3. rewrite V2. rewrite V1. rewrite Vg. rewrite (mod_eqm p (V a * _)). rewrite (mod_eqm p (V b ^ w)).
+      rewrite (win_algebra (V a) (V b) c m w Hc eq_refl). reflexivity.
+  Qed.
+
+  Theorem mga_exp_ru_ok b c : can b -> 0 <= c < B ->
+    can (mga_exp_ru k M b c) /\ V (mga_exp_ru k M b c) = (V b ^ c) mod p.
+  Proof.
+    intros Hb Hc. unfold mga_exp_ru. destruct mga_r_ok as [Cr Vr].
+    assert (En : exists m, (16 * 2 ^ k)%nat = S m).
+    { exists (16 * 2 ^ k - 1)%nat. pose proof (Nat.pow_nonzero 2 k ltac:(lia)). lia. }
+    destruct En as [m Em].
+    assert (EB : B = 16 ^ Z.of_nat (S m)).
+    { rewrite <- Em. unfold Bk. rewrite Nat2Z.inj_mul, Nat2Z.inj_pow. change (Z.of_nat 16) with 16. change (Z.of_nat 2) with 2.
+      transitivity (2 ^ (4 * (16 * 2 ^ Z.of_nat k))); [f_equal; ring|].
+      rewrite Z.pow_mul_r; [reflexivity | lia | apply Z.mul_nonneg_nonneg; [lia | apply Z.pow_nonneg; lia]]. }
+    rewrite Em. destruct (mga_win_loop_ok b c Hb (proj1 Hc) m (g_r M) Cr) as [C1 V1]. split; [exact C1|].
+    apply eqm_to_mod; [|apply V_can; exact C1]. rewrite V1. rewrite Vr.
+    rewrite Z.pow_1_l by (apply Z.pow_nonneg; lia). rewrite Z.mul_1_l.
+    rewrite <- EB. rewrite (Z.mod_small c B) by lia. reflexivity.
+  Qed.
 End MGAProofs.
 
 (* ------------------------------------------------------------------ rmint<K, MG_INACTIVE>: plain residues *)
@@ -981,10 +1081,10 @@ Proof.
     split; [exact Vm|]. rewrite (mr_V_fm k p HM 0) by (destruct HM as [_ Hp]; unfold canon; lia). apply from_mg_0.
 Qed.
 
-(* FULL statement for the windowed exponentiation exp(rmint<K,MGA>&, const rmint<K,MGA>&, const ruint<K>&) of rmgexp.h.
-   NOT proved (the proved part of exponentiation is the UDItype form, in MGA_inv_div_exp_stmt, and the MGI bit loop for every
-   length, in MGI_ops_stmt); mga_exp_ru is tied and checked by the correspondence / oracle run only. *)
+(* the windowed exponentiation exp(rmint<K,MGA>&, const rmint<K,MGA>&, const ruint<K>&) of rmgexp.h: every exponent word *)
 Definition MGA_exp_ruint_stmt : Prop := forall k p, RecMod k p ->
   let M := mga_init_module k p in let V := mga_get_ruint k M in
   forall b c, canon p b -> 0 <= c < Bk k ->
   canon p (mga_exp_ru k M b c) /\ V (mga_exp_ru k M b c) = (V b ^ c) mod p.
+Lemma MGA_exp_ruint : MGA_exp_ruint_stmt.
+Proof. intros k p HM M V b c Hb Hc. subst M V. apply (mga_exp_ru_ok k p HM b c Hb Hc). Qed.
